@@ -187,14 +187,44 @@ class FakeClock:
         self.cls = _FakeDT
 
     def __enter__(self):
+        import time as _time
+
         self.mod.datetime = self.cls
+        # should the store (one day) read time.monotonic()/time.time()/perf_counter() instead: drive those too, but only
+        # through the names in the store's own module, never process-wide
+        self._saved = {}
+        self.offset = 0.0
+        clock = self
+
+        def shifted(fn):
+            def f(*a, **k):
+                clock.calls += 1
+                return fn(*a, **k) + clock.offset
+
+            return f
+
+        class _TimeProxy:
+            def __getattr__(self_, name):
+                v = getattr(_time, name)
+                return shifted(v) if name in ("monotonic", "time", "perf_counter") else v
+
+        for name, val in list(vars(self.mod).items()):
+            if val is _time:
+                self._saved[name] = val
+                setattr(self.mod, name, _TimeProxy())
+            elif val in (_time.monotonic, _time.time, _time.perf_counter):
+                self._saved[name] = val
+                setattr(self.mod, name, shifted(val))
         return self
 
     def __exit__(self, *a):
         self.mod.datetime = self.orig
+        for name, val in self._saved.items():
+            setattr(self.mod, name, val)
 
     def advance(self, seconds):
         self.t += seconds
+        self.offset = getattr(self, "offset", 0.0) + seconds
 
 
 # ---------------------------------------------------------------------------
